@@ -64,6 +64,22 @@ def rand_job(rng, hard=False):
     return job
 
 
+def overflow_job(rng):
+    """a finite path whose outline leaves the f32 range: the stroker has emitted contours when finish() fails"""
+    big = rng.choice([3.0e38, 2.5e38, 3.3e38])
+    ops = [0, f2b(0.0), f2b(0.0), 1, f2b(big), f2b(big)]
+    if rng.random() < 0.4:
+        ops += [1, f2b(big), f2b(rng.choice([0.0, 1e37]))]
+    return [len(ops)] + ops + [f2b(rng.choice([2e38, 1e38, 3e38])), f2b(4.0), rng.randrange(3), rng.randrange(4), f2b(1.0)]
+
+
+def odd_scale_job(rng):
+    """an ordinary curved path stroked with a resolution scale that is zero, negative or denormal"""
+    job = rand_job(rng)
+    job[-1] = f2b(rng.choice([0.0, -0.0, -1.0, -16.0, 1e-30, 1e-42]))
+    return job
+
+
 def gen_cases(rng, tier):
     cases = []
     q = tier == "quick"
@@ -71,7 +87,13 @@ def gen_cases(rng, tier):
         jobs = []
         n = rng.randint(2, 12)
         for k in range(n):
-            jobs += rand_job(rng, hard=rng.random() < 0.3)
+            r = rng.random()
+            if r < 0.06:
+                jobs += overflow_job(rng)
+            elif r < 0.14:
+                jobs += odd_scale_job(rng)
+            else:
+                jobs += rand_job(rng, hard=rng.random() < 0.3)
         cases.append(("stroker_hist", jobs))
     # builder reuse: the C14 generator biased to clear / finish + Path::clear
     for s, a in _c14.gen_cases(rng, tier):
